@@ -153,6 +153,14 @@ def check(run: Run) -> None:
             if f"lhs.{f.name}" not in txt or f"rhs.{f.name}" not in txt:
                 run.finding("C06.a2", f"schema_equivalent:{f.name}", f"NodeRuntimeRegistry::schema_equivalent ignores NodeTypeMetaData::{f.name}: "
                             f"two node types differing only in it would be canonicalised onto one", loc=NODE)
+                continue
+            # the field must be compared AS A WHOLE: `lhs.f == rhs.f`, a helper over both (`eq(lhs.f, rhs.f)`), or through locals derived from it
+            whole = re.search(rf"(?<![\w.])(lhs\.{f.name}==rhs\.{f.name}|rhs\.{f.name}==lhs\.{f.name})(?![\w.(])", txt.replace(" ", "")) or \
+                re.search(rf"\w+\(lhs\.{f.name},rhs\.{f.name}\)", txt.replace(" ", ""))
+            via_local = [d.name for d in R.find(fa, lambda n: isinstance(n, C.Declarator) and n.init is not None) if f"lhs.{f.name}" in R.Canon()(d.init)]
+            if not whole and not via_local:
+                run.finding("C06.a2", f"schema_equivalent:{f.name}:partial", f"NodeRuntimeRegistry::schema_equivalent compares only a part of NodeTypeMetaData::{f.name} "
+                            "(not the whole field): node types that differ in it would be canonicalised onto one", loc=NODE)
         fa = R.fn(run, NODE, "find_canonical", cls="NodeRuntimeRegistry")
         cn = R.aliases_of(fa)
         ctext = " ".join(cn(s.cond) for s in fa.body.walk() if isinstance(s, C.If))
@@ -303,8 +311,33 @@ def check(run: Run) -> None:
             if e.startswith(("C01.a", "C01.b")):
                 raise AnalysisError("model-mismatch", e)
 
+    with run.obligation("C06.f", "K6", "a structural sub-graph output is treated as 'boundary input k passed through unchanged' only if EVERY leaf is the matching "
+                        "path of the SAME boundary input: the first leaf fixes the ordinal and any later leaf with another ordinal rejects the shortcut"):
+        fa = R.fn(run, WIRING, "structural_boundary_ordinal")
+        cn = R.aliases_of(fa)
+        blk = [s0 for s0 in fa.body.walk() if isinstance(s0, C.If) and cn(s0.cond).replace(" ", "") == "part.is_boundary_source()"]
+        run.sites(len(blk), 1, "boundary-source branch")
+        locals_ = {d.name: cn(d.init) for d in R.find(blk[0].then, lambda n: isinstance(n, C.Declarator) and n.init is not None)}
+        res = lambda x: locals_.get(x, x)
+        rejects = []
+        for s0 in blk[0].then.walk():
+            if isinstance(s0, C.If) and [cn(r.e) for r in R.find(s0.then, lambda n: isinstance(n, C.Return))] == ["false"]:
+                rejects.append(cn(s0.cond).replace(" ", ""))
+        asg = [res(cn(n.r)) for n in blk[0].then.walk() if isinstance(n, C.Binary) and n.op == "=" and cn(n.l) == "ordinal"]
+        run.count(1, "C06.f")
+        ord_expr = "captures.boundary_ordinal(part)"
+        has_path = any("boundary_path()" in r and "expected_path" in r for r in rejects)
+        has_ord = any("ordinal.has_value()" in r and "*ordinal" in r and "!=" in r and
+                      (ord_expr in r or any(k in r and v == ord_expr for k, v in locals_.items())) for r in rejects)
+        if not has_path or not has_ord or asg != [ord_expr]:
+            run.finding("C06.f", "structural_boundary_ordinal:mixed-ordinals-accepted", "the pass-through shortcut must be rejected when a leaf comes from a different "
+                        f"path or a different boundary input than the first leaf (rejects: {rejects}; ordinal := {asg}): an output assembled from parts of "
+                        "several inputs would be aliased to one of them", loc=fa.loc(blk[0]))
+
 
 VARIANTS = [
+    {"id": "f-first-leaf-ordinal-wins", "expect": "C06.f", "edits": [{"file": WIRING, "find": "      const std::size_t part_ordinal = captures.boundary_ordinal(part);\n      if (ordinal.has_value() && *ordinal != part_ordinal) {\n        return false;\n      }\n      ordinal = part_ordinal;", "replace": "      if (!ordinal.has_value()) {\n        ordinal = captures.boundary_ordinal(part);\n      }"}]},
+    {"id": "a2-active-inputs-compared-by-presence-only", "expect": "C06.a2", "edits": [{"file": NODE, "find": "                   lhs.active_inputs == rhs.active_inputs &&\n", "replace": "                   lhs.active_inputs.has_value() == rhs.active_inputs.has_value() &&\n"}]},
     {"id": "e-dedup-indegree-only", "expect": "C06.e", "edits": [{"file": WIRING, "find": "        ++indegree[instance];\n        consumers[producer].push_back(instance);\n      }\n    }\n    for (const WiringInstance *producer : instance->rank_dependencies) {", "replace": "        auto &dependants = consumers[producer];\n        if (dependants.empty() || dependants.back() != instance) {\n          ++indegree[instance];\n        }\n        dependants.push_back(instance);\n      }\n    }\n    for (const WiringInstance *producer : instance->rank_dependencies) {"}]},
     {"id": "a-eq-ignores-scalars", "expect": "C06.a", "edits": [{"file": WIRING, "find": "    if (scalars.has_value() != other.scalars.has_value()) {\n      return false;\n    }\n    if (!scalars.has_value()) {\n      return true;\n    }\n    return scalars.equals(other.scalars);", "replace": "    return true;"}]},
     {"id": "a-inputkey-custom-eq", "expect": "C06.a", "edits": [{"file": WIRING, "find": "  bool passive{false};\n\n  bool operator==(const InputKey &) const noexcept = default;", "replace": "  bool passive{false};\n\n  bool operator==(const InputKey &other) const noexcept { return source == other.source && target_path == other.target_path; }"}]},
